@@ -317,3 +317,48 @@ def _c07():
 
 
 _c07()
+
+
+# ----------------------------------------------------------------------------------------------- C09
+def _c09():
+    R("c09-max-compare-not-strict", C, "            if abs(checks[key]) > abs(lim[1]) or abs(checks[key]) < abs(lim[0]):", "            if abs(checks[key]) >= abs(lim[1]) or abs(checks[key]) < abs(lim[0]):", fires=["C09"])
+    R("c09-max-limit-signed", C, "            if abs(checks[key]) > abs(lim[1]) or abs(checks[key]) < abs(lim[0]):", "            if abs(checks[key]) > lim[1] or abs(checks[key]) < abs(lim[0]):", fires=["C09"])
+    R("c09-min-max-swapped", C, "            if abs(checks[key]) > abs(lim[1]) or abs(checks[key]) < abs(lim[0]):", "            if abs(checks[key]) > abs(lim[0]) or abs(checks[key]) < abs(lim[1]):", fires=["C09"])
+    R("c09-tp-by-magnitude", C, '        if key == "tp":\n            if checks[key] > lim[1] or checks[key] < lim[0]:', '        if key == "tp":\n            if abs(checks[key]) > abs(lim[1]) or abs(checks[key]) < abs(lim[0]):', fires=["C09"])
+    R("c09-default-not-per-key", C, "        lim = _get_opt(limits, key, LIMITS_DEFAULT[key])", '        lim = _get_opt(limits, key, LIMITS_DEFAULT["vi"])', fires=["C09"])
+    R("c09-po-is-loss", C, '            "po": pi - pl,', '            "po": pl,', fires=["C09"])
+    R("c09-vd-signed", C, '            "vd": abs(vi) - abs(vo),', '            "vd": vi - vo,', fires=["C09"])
+    R("c09-tr-tp-swapped", C, '            "tr": tr,\n            "tp": tp,', '            "tr": tp,\n            "tp": tr,', fires=["C09"])
+    R("c09-converter-checks-vd", C, '        return ["vi", "vo", "ii", "io", "pi", "po", "pl", "tr", "tp"]', '        return ["vi", "vo", "vd", "ii", "io", "pi", "po", "pl", "tr", "tp"]', fires=["C09"])
+    R("c09-iload-drops-tp", C, '        return ["vi", "pi", "tr", "tp"]', '        return ["vi", "pi", "tr"]', fires=["C09"])
+    R("c09-default-tp-min-zero", C, '    "tp": [-MAX_DEFAULT, MAX_DEFAULT],  # peak temperature', '    "tp": [0.0, MAX_DEFAULT],  # peak temperature', fires=["C09"])
+    R("c09-silence-also-for-sources", C, "        if self._component_type not in [_ComponentTypes.SOURCE, _ComponentTypes.SLOSS]:\n            if phase_conf:", "        if self._component_type not in [_ComponentTypes.SLOSS]:\n            if phase_conf:", fires=["C09"])
+    R("c09-silence-when-listed", C, "                if phase not in phase_conf:\n                    return \"\"", "                if phase in phase_conf:\n                    return \"\"", fires=["C09"])
+    R("c09-flag-keyed-by-component", S, "                if w != \"\":\n                    dwarns[dname] = 1", "                if w != \"\":\n                    dwarns[name] = 1", fires=["C09"])
+    R("c09-total-all-instead-of-any", S, "            if any(warn):\n                warn += [\"Yes\"]", "            if all(warn):\n                warn += [\"Yes\"]", fires=["C09"])
+    R("c09-warn-gets-other-operands", S, "                w = self._g[n]._solv_get_warns(vi, vo, ii, io, ta, ph, phase_config)", "                w = self._g[n]._solv_get_warns(vi, vo, ii, ii, ta, ph, phase_config)", fires=["C09"])
+    R("c09-warn-phase-argument", S, "                w = self._g[n]._solv_get_warns(vi, vo, ii, io, ta, ph, phase_config)", "                w = self._g[n]._solv_get_warns(vi, vo, ii, io, ta, phase, phase_config)", fires=["C09", "C06"])
+    R("eq-c09-compare-spelling", C, "            if abs(checks[key]) > abs(lim[1]) or abs(checks[key]) < abs(lim[0]):", "            if abs(lim[0]) > abs(checks[key]) or abs(lim[1]) < abs(checks[key]):", silent=["C09"])
+    R("eq-c09-silence-flattened", C, "        if self._component_type not in [_ComponentTypes.SOURCE, _ComponentTypes.SLOSS]:\n            if phase_conf:\n                if phase not in phase_conf:\n                    return \"\"",
+      "        if self._component_type != _ComponentTypes.SOURCE and self._component_type != _ComponentTypes.SLOSS and phase_conf and phase not in phase_conf:\n            return \"\"", silent=["C09"])
+
+
+_c09()
+
+
+# ----------------------------------------------------------------------------------------------- C08
+def _c08():
+    R("c08-current-sums-iout", S, '                    iin += [sum(df[filt]["Iin (A)"])]', '                    iin += [sum(df[filt]["Iout (A)"])]', fires=["C08"])
+    R("c08-phase-conjunct-dropped", S, '                        filt = (df["Rail in"] == r) & (df["Phase"] == ph)', '                        filt = df["Rail in"] == r', fires=["C08"])
+    R("c08-power-column-gets-loss", S, '            res["Power (W)"] = pwr\n            res["Loss (W)"] = loss\n            res["Efficiency (%)"] = eff\n            res["Warnings"] = warn\n            return pd.DataFrame(res)', '            res["Power (W)"] = loss\n            res["Loss (W)"] = loss\n            res["Efficiency (%)"] = eff\n            res["Warnings"] = warn\n            return pd.DataFrame(res)', fires=["C08"])
+    R("c08-voltage-from-rail-out-no-phase", S, '                    vin += [df[filt]["Vin (V)"].tolist()[0]]', '                    vin += [df[df["Rail out"] == r]["Vout (V)"].tolist()[0]]', fires=["C08"])
+    R("c08-emptiness-skip-removed", S, '                    if not filt.any():  # rail feeds nothing in this phase\n                        continue\n', '', fires=["C08"])
+    R("c08-ta-not-forwarded", S, '            energy=energy,\n            ta=ta,\n            tags=tags,\n        )\n        if "Phase" in df:', '            energy=energy,\n            tags=tags,\n        )\n        if "Phase" in df:', fires=["C08"])
+    R("c08-rail-filter-by-rail-out", S, '                        filt = df["Rail in"] == r\n                    if not filt.any()', '                        filt = df["Rail out"] == r\n                    if not filt.any()', fires=["C08"])
+    R("c08-loss-sums-power", S, '                    l = sum(df[filt]["Loss (W)"])', '                    l = sum(df[filt]["Power (W)"])', fires=["C08"])
+    R("c08-rail-in-of-first-parent", S, '                parent += [pn]\n                if pn != "":\n                    rail_in += [self._g.attrs["rails"][pn]]', '                parent += [pn]\n                if pn != "":\n                    rail_in += [self._g.attrs["rails"][self._get_parent_name(n)]]', fires=["C08", "C05"])
+    R("eq-c08-sum-method", S, '                    iin += [sum(df[filt]["Iin (A)"])]', '                    iin += [df[filt]["Iin (A)"].sum()]', silent=["C08"])
+    R("eq-c08-values0", S, '                    vin += [df[filt]["Vin (V)"].tolist()[0]]', '                    vin += [df[filt]["Vin (V)"].values[0]]', silent=["C08"])
+
+
+_c08()
